@@ -10,8 +10,9 @@
      src/vnacal_new.c  vnacal_new_alloc / vnacal_new_free, vnacal_free.c, vnacal_create.c
 
    The model follows the code with the repairs of /verif/fixes/D08, D11, D23, D37, D42, D43, D44
-   applied, D17 as well (each deviation from the unrepaired code is marked "fix Dnn" below; [step_asis] keeps
-   the unrepaired variants that are needed for the refutation theorems).
+   applied, D17 as well (each deviation from the unrepaired code is marked "fix Dnn" below).  [step_asis] is a
+   VARIANT of the model that keeps three repaired defects (D08, D11, D42) for the record theorems
+   c16_model_variant_before_fix_*; it corresponds to no current code and is not part of the tie.
 
    Abstractions (see docs/design_C16.md):
    - numbers: a complex value is a pair of integers in units of 1/64; frequencies are integers;
@@ -653,7 +654,7 @@ Definition step_gen (asis : bool) (s : state) (o : op) : state * outcome :=
   end.
 
 Definition step := step_gen false.
-Definition step_asis := step_gen true.      (* the code before the fixes D08, D11, D42 *)
+Definition step_asis := step_gen true.      (* model variant: the code as it was before the fixes D08, D11, D42 *)
 
 Fixpoint run (s : state) (ops : list op) : state * list outcome :=
   match ops with
